@@ -73,6 +73,7 @@ macro "fr_mvcgen" " [" args:(simpStar <|> simpErase <|> simpLemma),* "]" : tacti
       -IncrVerif.Proofs.expertInvalidate_spec, -IncrVerif.Proofs.elabInstr_spec, -IncrVerif.Proofs.elabTemplate_spec,
       -IncrVerif.Proofs.didSetVarWhileNotStabilising_spec, -IncrVerif.Proofs.writeVar_spec, -IncrVerif.Proofs.disallowFutureUse_spec,
       -IncrVerif.Proofs.subscribe_spec, -IncrVerif.Proofs.unsubscribe_spec, -IncrVerif.Proofs.runEffectBasic_spec,
+      -IncrVerif.Proofs.dropVarHandle_spec,
       -IncrVerif.Proofs.childChanged_spec, -IncrVerif.Proofs.parentIterCanRecomputeNow_spec, -IncrVerif.Proofs.maybeChangeValueManual_spec,
       -IncrVerif.Proofs.maybeChangeValue_spec, -IncrVerif.Proofs.runEffects_spec, -IncrVerif.Proofs.recomputeOne_spec,
       -IncrVerif.Proofs.recompute_spec, -IncrVerif.Proofs.addNewObservers_spec, -IncrVerif.Proofs.unlinkDisallowedObservers_spec,
@@ -376,9 +377,40 @@ theorem unnecessary_fr (fuel : Nat) :
   fr_mvcgen [subscribe]
 @[spec high] theorem unsubscribe_fr (o token owner : Nat) : FPres t (unsubscribe o token owner) := by
   fr_mvcgen [unsubscribe]
+/-- dropping a `Var` handle touches `vars` and `deadVars` only -/
+@[spec high] theorem dropVarHandle_fr (v : Nat) : FPres t (dropVarHandle v) := by
+  fr_mvcgen [dropVarHandle]
+/-- `withVarHandle v act` is `act` or a no-op -/
+theorem withVarHandle_fr (v : Nat) (act : M Unit) (h : FPres t act) : FPres t (withVarHandle v act) := by
+  fr_mvcgen [withVarHandle, h]
+theorem discard_fr {α} (x : M α) (h : FPres t x) : FPres t (discard x) := by
+  fr_mvcgen [Functor.discard, h]
 @[spec high] theorem runEffectBasic_fr (env : Env) (e : Effect) : FPres t (runEffectBasic env e) := by
-  fr_mvcgen [runEffectBasic, Functor.discard]
-  all_goals exact writeVar_fr _ _ _ _
+  cases e with
+  | setVar v x =>
+    simp only [runEffectBasic]
+    exact withVarHandle_fr t v _ (discard_fr t _ (writeVar_fr _ _ _ _))
+  | modifyVar v x =>
+    simp only [runEffectBasic]
+    exact withVarHandle_fr t v _ (discard_fr t _ (writeVar_fr _ _ _ _))
+  | updateVar v x =>
+    simp only [runEffectBasic]
+    exact withVarHandle_fr t v _ (discard_fr t _ (writeVar_fr _ _ _ _))
+  | replaceVar v x =>
+    simp only [runEffectBasic]
+    apply withVarHandle_fr
+    fr_mvcgen [Functor.discard]
+  | replaceWithVar v x =>
+    simp only [runEffectBasic]
+    apply withVarHandle_fr
+    fr_mvcgen [Functor.discard]
+  | dropVar v =>
+    simp only [runEffectBasic]
+    exact discard_fr t _ (dropVarHandle_fr t v)
+  | readObs o => fr_mvcgen [runEffectBasic]
+  | panic => fr_mvcgen [runEffectBasic]
+  | disallow o => fr_mvcgen [runEffectBasic]
+  | _ => fr_mvcgen [runEffectBasic]
 
 /-! recompute -/
 
